@@ -40,14 +40,15 @@ def _classify(op, a, b):
         return ("model-reader-differs:" + cls, detail)
     b0 = b.split(" ## ")[0]
     notes = b.split(" ## ", 1)[1] if " ## " in b else ""
-    m = re.match(r"errs=(\d+);(.*?);view=(.*)$", b0, re.S)
+    # errs=<n> | dup-rel-ids | order (the two diagnostics under which a restricted / store view is still compared: edge 15, 16)
+    m = re.match(r"errs=([\w-]+);(.*?);view=(.*)$", b0, re.S)
     if not m:
         return ("independent-decoder-differs", b[:300])
     va = a.split(";view=", 1)[1].split(" ## ")[0] if ";view=" in a else ""
     if va.startswith("read-panicked") or va.startswith("read-error") or va.startswith("view-panicked"):
         return ("library-" + va.split(" ")[0], notes)
-    if m.group(1) != "0":
-        return ("file-outside-the-domain", m.group(2))
+    if m.group(1) != "0" and not (m.group(1) == "order" and a.split(" ## ")[0].startswith("errs=order;")):
+        return ("file-outside-the-domain", m.group(2) or notes)
     if "modelpos=" in m.group(2):
         # the Lean MODEL of the library's position rule (rows / cells without r) differs from the spec on a
         # file the spec accepts: the model is wrong about the code, or C03_positions' hypotheses are too narrow
@@ -148,7 +149,7 @@ def _classify(op, a, b):
 
 
 PROP = {
-    "thm": ["Umya.Thm.C03", "Umya.Thm.C03Cell", "Umya.Thm.C03Sheet", "Umya.Thm.C03Gen", "Umya.Thm.C03Book", "Umya.Thm.C03Names"],
+    "thm": ["Umya.Thm.C03", "Umya.Thm.C03Cell", "Umya.Thm.C03Sheet", "Umya.Thm.C03Gen", "Umya.Thm.C03Book", "Umya.Thm.C03Names", "Umya.Thm.C03Store"],
     "harness": "c03",
     "level": "translation_validation",
     "stateful": True,
@@ -159,7 +160,7 @@ PROP = {
     "driver_timeout": 3000,
     "level_text": "Translation validation per file by an independent decoder executed in Lean, plus theorems for the cell-level reading rules. Every part of every "
                   "file (53 corpus files in the quick tier, all 55 in the thorough tier; 300 / 5000 packages emitted by a seed-driven xlsx grammar that writes the XML itself; "
-                  "14 hand-written boundary packages) is lexed by an XML 1.0 reader and decoded by an OPC/SpreadsheetML decoder written from the standards "
+                  "16 hand-written boundary packages) is lexed by an XML 1.0 reader and decoded by an OPC/SpreadsheetML decoder written from the standards "
                   "(Umya.Spec.Xml, Umya.Spec.Sml, Umya.Spec.SharedFormula, Umya.Spec.Double): cells with value / kind / formula incl. expanded shared formulas, numbers as "
                   "exact binary64 bit patterns, style facts through cellXfs (numFmt id / custom code, bold, fill pattern and foreground colour), columns, rows, hyperlinks "
                   "through the rels part, tables, defined names, sheet list. Its view must equal the view printed from the workbook the LIBRARY loaded (read_reader + public getters). "
@@ -184,7 +185,13 @@ PROP = {
                   "no panic iff every localSheetId is inside the sheet list, every name kept once in document order, a scoped name in the list of sheet localSheetId, an unscoped name by the sheet of its FIRST area, else the workbook list), "
                   "C03_sheet_paths / C03_sheet_part (join_paths(\"xl\", target) after the /xl/ stripping = the decoder's resolveTargetL against xl/workbook.xml for EVERY relative target and every absolute target in normal form - completes C03_sheet_list), "
                   "C03_table_columns (table.rs vs decodeTable: name, displayName, column names, area), C03_book_sheet and C03_book (ONE theorem for a package: under the per-part validity predicates the reader model readBook - the function the driver runs "
-                  "against the implementation on every file - does not panic, Spec.Sml.decode delivers a BookV, and both show the same sheet list and per sheet the same cells in document order, resolved style facts of every cell, merged ranges, hyperlinks, and the same defined names, scoped names at home on their sheet). "
+                  "against the implementation on every file - does not panic, Spec.Sml.decode delivers a BookV, and both show the same sheet list and per sheet the same cells in document order, resolved style facts of every cell, merged ranges, hyperlinks, and the same defined names, scoped names at home on their sheet; C03_book_any: the same with the defined names in any spelling of the decidable grammar nameTextAnyB, "
+                  "the names compared through canonNameV = the decoder's text re-quoted by the library's rule; C03_book is the special case). The cell STORE (Thm/C03Store.lean, model Umya/Model/CellStore.lean: Cells::set_fast = HashMap::insert per cell in document order, "
+                  "an association list whose insert removes the old entry): C03_store_last_wins (for EVERY list of cells a look-up at (row, column) returns the LAST cell of the list at that position; C03_last_at_meaning: = getLast? of the filtered list; "
+                  "C03_store_is_map: no position twice), C03_sheet_store (for every validSheetData - which ALLOWS a position to occur any number of times, in one row or in repeated rows - every translator T and every position the store the reader model fills and the "
+                  "store filled from the decoder's cell list show the same cell or both nothing: equal as maps; C03_sheet_store_decoder with the spec's translator), C03_book_store (under the hypotheses of C03_book_any, for every sheet index and every position "
+                  "the library model's store and the decoder's store agree). C03_sheet_part_last: for ANY workbook relationship list, ids duplicated or not, the model reads a sheet from the part of the LAST relationship with the sheet's r:id (as reader/xlsx.rs does) "
+                  "= the decoder's path rule applied to the LAST of the decoder's relationships with that Id; C03_sheet_part (hypothesis: at most one relationship with that id) then gives the decoder's choice (the first). "
                   "Style resolution through cellXfs (Thm/C03Book.lean, model Umya/Model/ReaderStyle.lean built from the C05 codec models Umya.StyleCodec.*.read and Umya.Style.pick; decoder Spec.Sml.styleTable, "
                   "extended for this from ECMA-376 18.8 with FontV / FillV / BorderV / AlignV / ProtV and the apply* attributes): C03_style_resolution (for EVERY styles.xml tree with the explicit decidable validStyles - any "
                   "number of numFmts, fonts, fills, borders, xfs; children in any order; optional children / attributes present or not; apply* flags 0 / 1 / true / false / absent - the model of Stylesheet::set_attributes + make_style "
@@ -220,7 +227,7 @@ PROP = {
                         "C03_merges", "C03_defined_names", "C03_defined_name_areas", "C03_names_home", "C03_sheet_paths", "C03_sheet_part",
                         "C03_table_columns", "C03_book_sheet", "C03_book",
                         "C03_merge_ref_grammar", "C03_merges_canonical", "C03_defined_names_any_spelling", "C03_canon_text_meaning",
-                        "C03_canon_text_library_spelling"],
+                        "C03_canon_text_library_spelling", "C03_sheet_part_last", "C03_store_last_wins", "C03_last_at_meaning", "C03_store_is_map", "C03_sheet_store", "C03_sheet_store_decoder", "C03_book_any", "C03_book_store"],
     "rule": "case = one xlsx file: `c03 reset file <corpus file>`, `c03 reset gen <seed>` (grammar derivation from the seed; productions listed at the top of harness/src/c03.rs and "
             "counted as prod.* in the distribution: cell encodings t=absent/n/s/str/inlineStr/b/e with and without formula, number forms, shared/inline strings plain/rich/phonetic/"
             "xml:space/looks-typed, entities and character references in text and attributes, shared-formula blocks with the master anywhere in its ref and children right/below/"
@@ -228,7 +235,7 @@ PROP = {
             "relationship ids, defined names global/local/constant/multi-area/multi-sheet (first and last area on different sheets)/unknown sheet, names with characters that need escaping, hyperlinks external/location/both/tooltip/display, one table, a styles part with 1-8 xfs over 6 fonts / 6 fills / 3 borders (xfs share components; "
             "font children in different orders, missing sz / name, <b val=0>, underline forms, strike, colours rgb / theme+tint / indexed; pattern fill without patternType; diagonal border; every apply* flag independently absent / 1 / 0 / true / false; "
             "alignment and protection children; built-in and custom number formats)), "
-            "`c03 reset edge <k>` (14 hand-written boundary packages: edge 14 = where defined names live (three sheets behind a relative, an absolute and a dotted target; a scoped name whose area is on another sheet, an unscoped name whose first and last areas are on different sheets, escaped name and sheet name, formula / constant / whole-row bodies, a missing sheet; merged ranges up to the last row), edge 12 = the non-vacuity example of C03_sheet (two shared groups, children right / below-left, a row and cells without r, inline string, <si/>), edge 13 = the witness of C03_hyperlink_location_with_rid_fails next to valid links and merges; shared-formula blocks at the grid edge, start/end-tag forms, CDATA / comments, literal white space in attributes, t=\"b\" with true / false, a string item with t and runs, an empty <si/>, blanks at the ends of texts). Every part is one request, `c03 decode` compares the library's view with the decoder's, `c03 model` the library's with the reader model's. Only the case headers of a replay are acted on. "
+            "`c03 reset edge <k>` (16 hand-written boundary packages: edge 15 = a workbook relationships part with a DUPLICATED Id (two worksheet relationships rId1 -> sheet1.xml / sheet2.xml: the library reads the last; `c03 decode` compares the head of the view only, marked errs=dup-rel-ids on both sides, `c03 model` the sheet), edge 16 = the non-vacuity example of C03_sheet_store (position A1 three times, in one row and in a repeated row: the decoder's order diagnostic is expected, errs=order, and its cells are shown through the store), edge 14 = where defined names live (three sheets behind a relative, an absolute and a dotted target; a scoped name whose area is on another sheet, an unscoped name whose first and last areas are on different sheets, escaped name and sheet name, formula / constant / whole-row bodies, a missing sheet; merged ranges up to the last row), edge 12 = the non-vacuity example of C03_sheet (two shared groups, children right / below-left, a row and cells without r, inline string, <si/>), edge 13 = the witness of C03_hyperlink_location_with_rid_fails next to valid links and merges; shared-formula blocks at the grid edge, start/end-tag forms, CDATA / comments, literal white space in attributes, t=\"b\" with true / false, a string item with t and runs, an empty <si/>, blanks at the ends of texts). Every part is one request, `c03 decode` compares the library's view with the decoder's, `c03 model` the library's with the reader model's. Only the case headers of a replay are acted on. "
             "non-trivial = every part / decode request; distinct = distinct request line",
     "trusted_base": TB_COMMON + ["independent decoder Umya/Spec/XmlLex.lean + Sml.lean + SharedFormula.lean + Double.lean (executed, not verified against the standards' text)",
                                  "zip crate", "harness generator and view (harness/src/c03.rs)", "difference classifier (tools/props.d/C03.py)"],
@@ -272,17 +279,17 @@ PROP = {
                     "(the library matches unprefixed names only); character data directly inside <c> is not modelled; usize is 64 bits",
                     "Rust's f64 parser is correctly rounded (the spec side computes the nearest binary64 exactly with integer arithmetic)"],
     "partial_clauses": ["whole-file agreement: C03_book composes the per-part theorems into one statement about a package for the modelled skeleton (sheet list with path resolution, cells, style facts, merges, hyperlinks, defined names with homes); what stays per file: zip access and XML parsing (lookupOf), "
-                        "the fixed part names the library opens vs the relationships (workbook, sharedStrings, styles), the name of a sheet's relationships part (relsPartOf vs relsNameOf, an equation of look-ups in the hypothesis), cells.set_fast (last write wins; C03_book compares cells in document order), "
+                        "the fixed part names the library opens vs the relationships (workbook, sharedStrings, styles), the name of a sheet's relationships part (relsPartOf vs relsNameOf, an equation of look-ups in the hypothesis), the sorted enumeration of the cell store (C03_book_store compares the stores position by position), "
                         "the tree abstraction (tag forms, comments, CDATA: `unmodelled`), and everything outside the skeleton (columns, rows, tables inside the book statement, active tab, charts, drawings, comments, conditional formats, data validations); no kernel-checked instance of ALL hypotheses of C03_book at once (Node / Rel have no decidable equality): each hypothesis has its own example, examplePkg is evaluated, edge 14 replays the shape",
-                        "defined names in another spelling than the library prints (Sheet1!$A$1 as Excel writes it): now C03_defined_names_any_spelling - hypothesis nameTextAnyB (decidable, Model/CoordCanon.lean; the driver prints names-any-ok per file): not an area list, or a list of qualifier!cell / qualifier!cell:cell with the qualifier unquoted (a legal name without ' ( ) \" ,) or in apostrophes with doubled apostrophes, cells in canonical spelling. The statement is reader text = canonText(decoder text), NOT equality of texts: the library re-quotes every qualifier by its own rule (C17_quote_rule), so the file text Sheet1!$A$1 is shown as 'Sheet1'!$A$1 (confirmed on the implementation); canonText keeps the areas and is idempotent (C03_canon_text_meaning), and is the identity on NameTextOk texts (C03_canon_text_library_spelling). C03_book still takes NameTextOk. In the per-file view both sides are compared with every plain qualifier quoted (quote_qualifiers / canonName, below the abstraction: that canonicaliser is the harness's, not canonText). Still outside: rows with leading zeros (Sheet1!$A$01: read, printed without the zero), unqualified areas ($A$1), unquoted qualifiers containing ' ( ) \" , ",
-                        "model note: reader/xlsx.rs lets the LAST workbook relationship with the sheet's r:id win (the loop overwrites the raw data), the model sheetPart takes the FIRST (find?); equal for unique Ids (OPC requires them; the decoder reports duplicates as outside the domain); not changed here",
+                        "defined names in another spelling than the library prints (Sheet1!$A$1 as Excel writes it): now C03_defined_names_any_spelling - hypothesis nameTextAnyB (decidable, Model/CoordCanon.lean; the driver prints names-any-ok per file): not an area list, or a list of qualifier!cell / qualifier!cell:cell with the qualifier unquoted (a legal name without ' ( ) \" ,) or in apostrophes with doubled apostrophes, cells in canonical spelling. The statement is reader text = canonText(decoder text), NOT equality of texts: the library re-quotes every qualifier by its own rule (C17_quote_rule), so the file text Sheet1!$A$1 is shown as 'Sheet1'!$A$1 (confirmed on the implementation); canonText keeps the areas and is idempotent (C03_canon_text_meaning), and is the identity on NameTextOk texts (C03_canon_text_library_spelling). C03_book_any is C03_book under nameTextAnyB with the names compared through canonNameV (C03_book itself keeps NameTextOk and plain equality). In the per-file view both sides are compared with every plain qualifier quoted (quote_qualifiers / canonName, below the abstraction: that canonicaliser is the harness's, not canonText). Still outside: rows with leading zeros (Sheet1!$A$01: read, printed without the zero), unqualified areas ($A$1), unquoted qualifiers containing ' ( ) \" , ",
+                        "duplicated workbook relationship ids: the model now follows the code (sheetRel: the LAST relationship with the sheet's r:id, C03_sheet_part_last; the decoder takes the FIRST and reports a diagnostic; SheetValid / C03_book ask for exactly one relationship per sheet id; edge 15 replays a duplicate: `c03 decode` then compares only the head of the view - active tab, sheet list, names -, `c03 model` compares the sheet read through the last relationship with the library). readSheetB also models that the code opens the part of EVERY relationship with the sheet's id (by_name(..).unwrap()): a missing part of the last OR of an earlier one is a panic (`none`); this branch is modelled from the source text and exercised by no package of the run (the library panics there, the decoder reports a missing part: nothing to compare)",
                         "tables: C03_table_columns is about one table part; how the library finds table parts (every sheet relationship of type table) vs the decoder (tableParts / r:id) is not modelled; tables stay per file in the decode view",
                         "C03_sheet holds for every translator T and is instantiated with the spec's and with the code's; that the two translators print the same TEXT for a master formula is NOT proved (false in general: "
                         "known finding C03-shared-formula-blanks-dropped); C03_shared_formula_tokens covers token lists, the tokenizer-vs-scanner step is per file",
                         "validSheetData requires well-formed shared groups (groupsOk: the first f t=shared of an si carries the text, later ones none): a child that precedes its master or carries its own text is outside "
                         "(the code then anchors the group at the first cell seen / overwrites the child's text with the translated master; not replayed as a boundary package)",
                         "C03_merges_partial / C03_defined_names_partial are kept next to the full C03_merges / C03_defined_names (older statements about the loops only)",
-                        "cells.set_fast (last write wins per position) is in the driver (sortedCells), not in the theorems: C03_sheet / C03_book compare the cells in document order",
+                        "cells.set_fast (last write wins per position) is now in the theorems (C03_store_last_wins, C03_sheet_store, C03_book_store: look-ups at every position agree); what is still only in the driver: the ENUMERATION get_cell_collection_sorted (Store.sorted = mergeSort of the store's entries by (row, column); no theorem that the two sorted lists are equal - it follows from equal maps with unique keys but is not proved), and the store is run by the driver only for sheets of at most 4000 cells (association list, quadratic; larger sheets go through the older sort-and-keep-last sortedCellsF: store-sheets=k/n in the informational part of `c03 model`); the decoder's view of a sheet whose cells are not strictly increasing by position is printed through the same store (specStoreCells: last of a position counts, ECMA-376 is silent on repeated positions) - edge 16 replays A1 three times",
                         "C03_cell / C03_positions are theorems about the hand-written model of Cell::set_attributes / Row::set_attributes; the model is tied to the code through the per-file runs only "
                         "(model vs spec on every cell and sheetData, spec vs implementation by the oracle), there is no mechanical extraction of the model from the Rust",
                         "two conjuncts of validCell exclude schema-valid cells on which the code deviates from the spec (proved witnesses, replayed as boundary packages, known findings): a string item with "
